@@ -273,6 +273,12 @@ func (maps *trackedMaps) processUnfiltered(ctx context.Context, ef *Filter, filt
 						if err != nil {
 							return fmt.Errorf("%s: unable to create new tracked maps for slice: %w", op, err)
 						}
+						if taggable, ok := field.Index(i).Interface().(Taggable); ok && (f.Kind() == reflect.Map || f.CanSet()) {
+							// a taggable element: its tags apply before the defaults
+							if err := ef.filterTaggable(ctx, taggable, filterOverrides, newMaps, opt...); err != nil {
+								return fmt.Errorf("%s: unable to filter taggable slice element: %w", op, err)
+							}
+						}
 						fkind := f.Kind()
 						switch {
 						case fkind == reflect.Struct:
